@@ -110,10 +110,19 @@ def run(ctx):
                     and kwarg(c, 'pos') is not None]:
                 cls = _node_class_of(c)
                 pos, pe = unparse(kwarg(c, 'pos')), unparse(kwarg(c, 'pos_end') or ast.Constant(None))
-                if not pos.endswith('.pos'):
+                if isinstance(kwarg(c, 'pos'), ast.Name):
+                    # a local holding the start: its (single) definition is what the node gets
+                    defs_ = [a_.value for a_ in iter_own(f) if isinstance(a_, ast.Assign) and len(a_.targets) == 1
+                             and isinstance(a_.targets[0], ast.Name) and a_.targets[0].id == pos]
+                    if len(defs_) == 1:
+                        pos = unparse(defs_[0])
+                if pos.endswith('.pos'):
+                    tokv = pos[:-4]
+                elif pe.endswith('.pos_end') and (pe[:-8] + '.') in pos:
+                    tokv = pe[:-8]      # the end is the token's end: the start must be the token's start
+                else:
                     continue
-                tokv = pos[:-4]
-                want = {'pos_end': tokv + '.pos_end'}
+                want = {'pos_end': tokv + '.pos_end', 'pos': tokv + '.pos'}
                 if cls == 'LatexCommentNode':
                     want.update(comment=tokv + '.arg', comment_post_space=tokv + '.post_space')
                 if cls == 'LatexMacroNode':
@@ -121,6 +130,11 @@ def run(ctx):
                 bad = []
                 for k, w in want.items():
                     v = kwarg(c, k)
+                    if k == 'pos':
+                        if pos != w:
+                            bad.append('pos=%s (expected %s: the white space in front of a token is not part of the node)'
+                                       % (pos, w))
+                        continue
                     if v is None or unparse(v) != w:
                         bad.append('%s=%s (expected %s)' % (k, short(v) if v is not None else 'missing', w))
                 if cls == 'LatexMacroNode':
